@@ -5,8 +5,8 @@
 # with the change (apart from the baseline's 14 always-failing tests); then runs the property's check (and any
 # extra ones) against the changed tree and stores everything under seeded/<Cnn>_<k>/.
 p="$1"; k="$2"; shift 2
-src="/tmp/mut_${p}_out"
-id="${p}_${k}"
+src="${MUT_SRC_PREFIX:-/tmp/mut_}${p}_out"
+id="${p}_$(( k + ${MUT_K_OFFSET:-0} ))"
 cd "$(dirname "$0")/.." || exit 2
 [ -f "$src/patch$k.diff" ] || { echo "no $src/patch$k.diff"; exit 2; }
 dst="seeded/$id"; mkdir -p "$dst"
